@@ -84,6 +84,15 @@ def _parse_config_path(config_path: str) -> str:
   spec = importlib.util.find_spec(pkg)  # type: ignore
   if spec is None:
     raise ValueError('Package not found', pkg)
+  if spec.origin is None:
+    # A namespace package: one or more plain directories without `__init__.py`.
+    paths = [
+        os.path.join(location, filename)
+        for location in spec.submodule_search_locations or []
+    ]
+    if not paths:
+      raise ValueError('Package has no location', pkg)
+    return next((path for path in paths if os.path.isfile(path)), paths[0])
   file_sys_path = spec.origin
   # file_sys_path often ends with __init__.py.
   path = os.path.join(os.path.dirname(file_sys_path), filename)
